@@ -12,6 +12,31 @@ COMMON_ASSUME = [
 ]
 
 REGISTRY = {
+    "C03": {
+        "level": "exploration",
+        "technique": "independent one-shot Murmur3/CDC reference model (validated against pinned Cassandra vectors) over generated keys, chunkings and prepared-statement shapes served by a mock responder",
+        "rule": "part A: (hasher, key bytes, cut positions, mid-stream finish) - lengths 0..=70 and 16k-1/16k/16k+1 up to 209 x 9 byte classes x every 1-cut and 2-cut chunking (len <= 48 quick / 97 thorough), every 3-cut chunking for short keys, fixed chunk sizes, keys whose raw hash is exactly i64::MIN (built with the model's inverse), random cases; "
+                "part M: crafted PREPARED bodies through the public decoder; part P: PREPAREs served to a real Session with 0..12 key components at any permutation of 1..16 bind markers with non-key markers interleaved, Murmur3/CDC/unknown partitioner tables -> compute_partition_key / calculate_token vs model; part T: ClusterState::compute_token; "
+                "non-trivial = non-empty key / at least one key component; distinct = distinct (hasher, bytes, cuts, mid) or (shape, values), tracking capped per worker (lower bound)",
+        "assumptions": COMMON_ASSUME + ["single empty keys, components over 65535 bytes, NULL key values and CDC keys of lengths the server never stores are not asserted"],
+        "quick": [{"variant": "dbg"}],
+        "thorough": [{"variant": "dbg"}, {"variant": "rel"}],
+        "level_text": "Every generated key, chunking and bind-marker permutation is hashed by the real partitioner code and compared with an independently written one-shot Cassandra Murmur3 (signed tail bytes, MIN->MAX) over an independently built composite encoding in partition-key order; chunking independence and mid-stream finish are checked; debug assertions act as an extra oracle, release re-runs the same cases.",
+        "level_note": "trusted: refmodel/murmur3.rs (self-test against Cassandra-generated vectors pinned in the repository, canonical MurmurHash3 digests and hand-spelled composites; a failing self-test is a harness error, not a verdict)",
+        "design_ref": "DESIGN.md §4 C03",
+    },
+    "C20": {
+        "level": "exploration",
+        "technique": "history checker over mock-node logs: acknowledged keyspace of the connection at the arrival of every request vs the last successful use_keyspace; enumeration of candidate names",
+        "rule": "histories = sequences of use_keyspace (one at a time; plain and case-sensitive names; scripted failures on some connections) interleaved with connection kills (pool refill), node restarts, a node added through system.peers + refresh, delayed USE acknowledgements, PerShard(1|2) pools on a sharded + a plain node, while 2-6 workers issue requests continuously; one evaluation = one request that falls in a specified window (its call started after a use_keyspace returned Ok and no later use_keyspace had started when it arrived); "
+                "validation part: candidate names (length 0..60, any characters incl. quotes, ';', unicode, NUL) x case-sensitive flag; distinct = distinct history / name",
+        "assumptions": COMMON_ASSUME + ["requests overlapping a use_keyspace call, or following a failed one, are unspecified and only counted"],
+        "quick": [{"variant": "dbg"}],
+        "thorough": [{"variant": "dbg", "timeout_t": 5400}, {"variant": "tsan", "scale": 0.05, "optional": True, "tsan_suppress": True}],
+        "level_text": "Every request issued after a successful use_keyspace(K) must arrive on a connection on which the node had already acknowledged K, including connections opened afterwards (refill, reconnect, new node); invalid names must be refused locally with no frame reaching any node, valid names must appear verbatim as USE name / USE \"name\". Interleavings are sampled.",
+        "level_note": "trusted: mock cluster (the acknowledged keyspace is recorded before the acknowledgement is written, so it is a lower bound of what the client may know)",
+        "design_ref": "DESIGN.md §4 C20",
+    },
     "C14": {
         "level": "exploration",
         "technique": "mock nodes as source of truth for (statement id, result-metadata id, column layout) + history checker over node frame logs and caller-decoded rows",
